@@ -67,6 +67,12 @@ Ops2 == {"docstring", "summary"}
 \*         "Enumerated list start value not ordinal-1", "Duplicate implicit target name"), warning, error, severe.  ALL of
 \*         them are markup problems of the docstring and are reported alike: lvl occurs nowhere in the steps below.
 \*         Levels other than "warning" are realised by real reST texts, not injected (nothing to inject below the reader).
+\*         "split": the problem is not docutils' but pydoctor's own field splitter's (restructuredtext.py
+\*         _SplitFieldsTranslator.visit_field: a consolidated ":Parameters:" field that is not a well-formed list is shown
+\*         as-is and "Unable to split consolidated field" is recorded as a recoverable error) - reported like the others.
+\*         TWIN: when A's text has such a problem, B's own text may have THE SAME problem shape (B's menu below): two objects
+\*         processed one after the other in one process.  F[B] is a function of B's text, whatever was parsed before: no
+\*         step reads what another object's parse met (each object with the problem gets its own report).
 \* tag     the docstring has one more field whose tag is not a documented one: "unknown" - any other word - or "helper" -
 \*         the name of a METHOD of the class that dispatches on tags (FieldHandler.handle looks up 'handle_' + tag).  Both are
 \*         shown under their own name and reported as unknown fields (Field.report: no entry in parse_errors): no step below
@@ -80,7 +86,7 @@ Ops2 == {"docstring", "summary"}
 Fault == [parse : {"ok", "warn", "fatal", "crash", "refused"}, n : 1..2, tostan : {"ok", "raises"},
           summary : {"ok", "broken", "stanraises"}, toc : {"none", "ok", "noderaises", "stanraises"},
           field : {"ok", "raises"}, node : {"ok", "once"},
-          lvl : {"info", "warning", "error", "severe"}, tag : {"none", "unknown", "helper"}, ann : {"ok", "raises"}]
+          lvl : {"info", "warning", "error", "severe", "split"}, tag : {"none", "unknown", "helper"}, ann : {"ok", "raises"}]
 NoFault == [parse |-> "ok", n |-> 1, tostan |-> "ok", summary |-> "ok", toc |-> "none", field |-> "ok", node |-> "ok",
             lvl |-> "warning", tag |-> "none", ann |-> "ok"]
 \* after a fatal error / crash the plain text fallback object is used: the other faults can never be met
@@ -244,9 +250,10 @@ InitEnum == /\ Source = "enum" /\ tid = 0
                  /\ (dup => kindA = "cls" /\ fa \in {NoFault, [NoFault EXCEPT !.parse = "warn"], [NoFault EXCEPT !.parse = "fatal"],
                                                      [NoFault EXCEPT !.parse = "crash"], [NoFault EXCEPT !.tostan = "raises"]})
                  /\ vdoc = (kindA = "cls" /\ fa.parse \in {"ok", "warn"})   \* the parser's result has the field, plain text has none
-                 /\ \E fb \in (IF ~inherit /\ kindA = "func" THEN BFaults ELSE {NoFault}) :     \* B inherits, or is only a neighbour
+                 /\ \E fb \in (IF ~inherit /\ kindA = "func" THEN BFaults \cup (IF fa.lvl # "warning" THEN {fa} ELSE {})   \* (the twin)
+                                ELSE {NoFault}) :     \* B inherits, or is only a neighbour
                     \E fv \in (IF vdoc /\ ~dup THEN VMenu ELSE {NoFault}) :
-                       /\ fb.ann = "ok" /\ fb.tag = "none" /\ fb.lvl = "warning"
+                       /\ fb.ann = "ok" /\ fb.tag = "none" /\ (fb.lvl = "warning" \/ fb = fa)
                        \* (A's real reST text and B's real epytext text cannot live in one module: one docformat per scenario)
                        /\ ((fa.lvl # "warning" \/ fa.parse = "refused") => fb.node = "ok")
                        /\ F = [o \in Objs |-> CASE o = "A" -> fa [] o = "B" -> fb [] o = "V" -> fv]
